@@ -2031,6 +2031,15 @@ class Walker:
                 return [("raise", "ValueError", s)]
             except Exception:
                 pass
+        if name in ("textwrap.indent", "textwrap.dedent", "textwrap.fill", "textwrap.wrap", "textwrap.shorten") and args \
+                and all(a.kind == "const" and isinstance(a.value, (str, int)) for a in args) \
+                and all(v.kind == "const" and isinstance(v.value, (str, int, bool, type(None))) for v in kws.values()):
+            import textwrap as _tw
+
+            try:
+                return [("val", Const(getattr(_tw, name.split(".")[-1])(*[a.value for a in args], **{k: v.value for k, v in kws.items()})), s)]
+            except Exception:
+                pass
         if name in ("html.escape", "html.unescape") and args and all(a.kind == "const" for a in args) and all(v.kind == "const" for v in kws.values()) \
                 and isinstance(args[0].value, str):
             import html as _html
